@@ -232,6 +232,8 @@ def gen_plan(run_seed, tier="quick", profile="driver", focus=None):
     return _gen_e2e(r, tier)
   if profile == "faultsweep":
     return _gen_faultsweep(r, tier)
+  if profile == "calib":
+    return _gen_calib(r, tier)
   ops = []
   for _ in range(r.randint(1, 4)):
     fail, repeat = _level_pair(r)
@@ -797,6 +799,31 @@ def _gen_faultsweep(r, tier):
           "ops": ops}
 
 
+CALIB_PREFIXES = ["RandomWalk"] * 10 + [
+    "Frequency", "BlockFrequency", "Runs", "LongestRuns", "BinaryMatrixRank",
+    "NonOverlapping", "Overlapping", "Universal", "Serial",
+    "ApproximateEntropy"]
+
+
+def _gen_calib(r, tier):
+  """Calibration of the first clause of the statement ('the fraction of
+  p-values at or below alpha does not exceed alpha by more than sampling
+  error'): one process lifetime holds many single-pass suite calls of one cheap
+  test each on 2^20 fresh bits of a cryptographic generator. The p-values of
+  all lifetimes are pooled per sub-test by cross_run. RandomWalk is weighted
+  up: it is the test whose set of sub-tests depends on the data (the cycle
+  count), which a change seeded in round 3 exploited at a rate of about one
+  seed in 500."""
+  ops = []
+  for _ in range(32):
+    ops.append({"op": "good", "gen": r.choice(GOOD),
+                "prefix": r.choice(CALIB_PREFIXES), "n": 2**20,
+                "entry": "bitstring" if r.random() < 0.85 else "source",
+                "seeds": [r.getrandbits(40) | 1 for _ in range(8)]})
+  return {"engine": "C", "property": PROPERTY, "profile": "e2e",
+          "sub_profile": "calib", "clock_seed": r.getrandbits(32), "ops": ops}
+
+
 def _subject_e2e(plan):
   import warnings
   warnings.simplefilter("ignore")
@@ -993,6 +1020,10 @@ def _binom_tail(n, p, k):
   """P[Bin(n, p) >= k] (exact, 60 digits)."""
   if k <= 0:
     return mpmath.mpf(1)
+  if n > 400:
+    # the same quantity as a regularised incomplete beta function:
+    # P[Bin(n, p) >= k] = I_p(k, n - k + 1); one call instead of n - k terms
+    return mpmath.betainc(k, n - k + 1, 0, mpmath.mpf(p), regularized=True)
   q = mpmath.mpf(0)
   for j in range(k, n + 1):
     q += mpmath.binomial(n, j) * mpmath.mpf(p) ** j * \
@@ -1007,7 +1038,7 @@ def cross_run(prop, results):
   itself has a negligible false-alarm rate)."""
   pv = {}
   for r in results:
-    if not r["ok"] or r["profile"] != "e2e":
+    if not r["ok"] or r["profile"] not in ("e2e", "calib"):
       continue
     for name, vals in r["stats"].get("pvalues", []):
       pv.setdefault(name, []).extend(vals)
@@ -1034,7 +1065,10 @@ def cross_run(prop, results):
     n = len(vals)
     if n < 8:
       continue
-    for alpha in (0.01, 0.001):
+    # the deeper levels only where the population is large enough for them to
+    # mean something (the calibration profile); measured on the pinned tree
+    # with 3600 seeds x 363 sub-tests x these four levels: smallest tail 2.5e-4
+    for alpha in (0.01, 0.001) + ((1e-4, 1e-5) if n >= 2000 else ()):
       k = sum(1 for x in vals if x <= alpha)
       tail = _binom_tail(n, alpha, k)
       if tail < mpmath.mpf("1e-9"):
